@@ -15,6 +15,23 @@ enum color { RED, GREEN = 5, BLUE = -1 };
 enum { ANON_A = 1, ANON_B = 2 };
 typedef enum { TD_X, TD_Y } td_enum_t;
 enum flags { F_NONE = 0, F_A = 1, F_B = 2, F_AB = 3, F_DUP = 1 };
+/** Enum with bindgen annotations on its variants. */
+enum annotated {
+    AN_FIRST,
+    /** <div rustbindgen constant></div> */
+    AN_COUNT,
+    /** <div rustbindgen constant></div> */
+    AN_LAST = AN_COUNT,
+    /** <div rustbindgen hide></div> */
+    AN_HIDDEN = 7,
+    /** <div rustbindgen constant></div> */
+    AN_ALIAS_OF_HIDDEN = 7,
+    AN_PLAIN_DUP = 0,
+};
+/** <div rustbindgen opaque></div> */
+struct annotated_opaque { int hidden_a; double hidden_b; };
+/** <div rustbindgen nocopy></div> */
+struct annotated_nocopy { int n; };
 struct fwd;
 struct point { int x, y; };
 struct with_anon_enum {
